@@ -723,9 +723,9 @@ impl<NumericTypes: EvalexprNumericTypes> Node<NumericTypes> {
                     self.children.push(node);
                     let node = self.children.last_mut().unwrap();
 
-                    // Root nodes have at most one child
+                    // A parenthesised group never takes the preceding operand as its child, not even if it is empty
                     // TODO I am not sure if this is the correct error
-                    if node.operator() == &Operator::RootNode && !node.children().is_empty() {
+                    if node.operator() == &Operator::RootNode {
                         return Err(EvalexprError::MissingOperatorOutsideOfBrace);
                     }
                     // Do not insert root nodes into root nodes.
